@@ -118,7 +118,7 @@ impl<'s> FamVisitor for Runner<'s> {
         // ---- world
         let n = payloads.len() as u64;
         // implementation-agnostic: even a reader that asked for one byte per poll would stay below this
-        let budget = s.src.len() as u64 * (1 + s.src_repeat as u64) + s.caller.len() as u64 + 8 * (n + 1) + 64 + 2 * cut_at as u64;
+        let budget = s.src.len() as u64 * (1 + s.src_repeat as u64) + s.caller.len() as u64 + 8 * (n + 1) + 64 + byte_budget(cut_at);
         let core = SrcCore::new(stream, s.src.clone(), layout, budget, self.obs.clone());
         core.borrow_mut().scribble = s.scribble;
         core.borrow_mut().repeat_left = s.src_repeat;
